@@ -110,12 +110,12 @@ func specLinesText(lines []string, i int) string {
 //@   carries errc: errChan
 //@   carries result0: rootChan
 //@   carries result1: errChan
-//@   modifies Node.children, Node.parent, list.List.view, list.Element.backOf, counter.n, bufio.Scanner.pos, bufio.Scanner.failed, markdown.Parser.isSharpRoot, markdown.Parser.spaces, markdown.Parser.sep, errSent, ctxDoneSeen, gcRecv, rcRecv, rcSentOK, lnConsumed, gcSent, lnNodes, lnRootCount, lnRejected
+//@   modifies Node.children, Node.parent, list.List.view, list.Element.backOf, counter.n, bufio.Scanner.pos, bufio.Scanner.failed, markdown.Parser.isSharpRoot, markdown.Parser.spaces, markdown.Parser.sep, errSent, ctxDoneSeen, gcRecv, rcRecv, rcSentOK, lnConsumed, gcSent, lnNodes, lnRootCount, lnRejected, counter.mu.wheld, counter.mu.rheld, markdown.Parser.mu.wheld
 //@ closure gtree.rootGeneratorPipeline.generate#1
 //@   closes roots [C12]: rootc
 //@   closes errs [C12]: errc
 //@   requires nn: rg != nil && rg.nodeGenerator != nil && rg.nodeGenerator.parser != nil && md.parserOK(rg.nodeGenerator.parser) && ctx != nil
-//@   modifies Node.children, Node.parent, list.List.view, list.Element.backOf, counter.n, bufio.Scanner.pos, bufio.Scanner.failed, markdown.Parser.isSharpRoot, markdown.Parser.spaces, markdown.Parser.sep, errSent, ctxDoneSeen, gcRecv, rcRecv, rcSentOK, lnConsumed, gcSent, lnNodes, lnRootCount, lnRejected
+//@   modifies Node.children, Node.parent, list.List.view, list.Element.backOf, counter.n, bufio.Scanner.pos, bufio.Scanner.failed, markdown.Parser.isSharpRoot, markdown.Parser.spaces, markdown.Parser.sep, errSent, ctxDoneSeen, gcRecv, rcRecv, rcSentOK, lnConsumed, gcSent, lnNodes, lnRootCount, lnRejected, counter.mu.wheld, counter.mu.rheld, markdown.Parser.mu.wheld
 //@ loop gtree.rootGeneratorPipeline.generate#1#1
 //@   invariant wg [C12]: wg != nil && wg.spawned == wg.added
 //@   invariant parser: md.parserOK(rg.nodeGenerator.parser)
@@ -125,7 +125,7 @@ func specLinesText(lines []string, i int) string {
 //@   carries blocks: blockChan
 //@   carries rootc: rootChan
 //@   carries errc: errChan
-//@   modifies Node.children, Node.parent, list.List.view, list.Element.backOf, counter.n, bufio.Scanner.pos, bufio.Scanner.failed, markdown.Parser.isSharpRoot, markdown.Parser.spaces, markdown.Parser.sep, errSent, ctxDoneSeen, gcRecv, rcRecv, rcSentOK, lnConsumed, gcSent, lnNodes, lnRootCount, lnRejected, wg.done
+//@   modifies Node.children, Node.parent, list.List.view, list.Element.backOf, counter.n, bufio.Scanner.pos, bufio.Scanner.failed, markdown.Parser.isSharpRoot, markdown.Parser.spaces, markdown.Parser.sep, errSent, ctxDoneSeen, gcRecv, rcRecv, rcSentOK, lnConsumed, gcSent, lnNodes, lnRootCount, lnRejected, wg.done, counter.mu.wheld, counter.mu.rheld, markdown.Parser.mu.wheld
 //@   joins w [C12]: wg
 //@   after NewScanner: lnNodes := emptyseq(lnNodes)
 //@   after NewScanner: lnRootCount := 0
@@ -208,11 +208,11 @@ func specLinesText(lines []string, i int) string {
 //@   carries roots: grownChan($g)
 //@   carries errc: errChan
 //@   carries result0: errChan
-//@   modifies out, wfail, defaultSpreaderSimple.w, errSent, ctxDoneSeen, gcRecv, rcRecv, rcSentOK, lnConsumed, gcSent
+//@   modifies out, wfail, defaultSpreaderSimple.w, errSent, ctxDoneSeen, gcRecv, rcRecv, rcSentOK, lnConsumed, gcSent, defaultSpreaderPipeline.Mutex.held
 //@ closure gtree.defaultSpreaderPipeline.spread#1
 //@   closes errs [C12]: errc
 //@   requires nn: ds != nil && ds.defaultSpreaderSimple != nil && ctx != nil
-//@   modifies out, wfail, defaultSpreaderSimple.w, errSent, ctxDoneSeen, gcRecv, rcRecv, rcSentOK, lnConsumed, gcSent
+//@   modifies out, wfail, defaultSpreaderSimple.w, errSent, ctxDoneSeen, gcRecv, rcRecv, rcSentOK, lnConsumed, gcSent, defaultSpreaderPipeline.Mutex.held
 //@ loop gtree.defaultSpreaderPipeline.spread#1#1
 //@   invariant wg [C12]: wg != nil && wg.spawned == wg.added
 // What a text-spreader worker has written is, as long as no write was refused, the text of exactly the roots it received,
@@ -247,9 +247,11 @@ func lemmaRawRangePrefix(roots []*Node, r *Node, k int, i int) {
 //@   use lemma lemmaRawRangePrefix
 //@   ensures reported [C14]: wfail && !old(wfail) ==> errSent
 //@   ensures text [C01]: wfail == old(wfail) && !errSent ==> out[ds.defaultSpreaderSimple.w] == old(out[ds.defaultSpreaderSimple.w]) ++ specRawRange(gcRecv, len(old(gcRecv)), len(gcRecv))
-//@   modifies out, wfail, errSent, ctxDoneSeen, gcRecv, rcRecv, rcSentOK, lnConsumed, gcSent, wg.done
+//@   modifies out, wfail, errSent, ctxDoneSeen, gcRecv, rcRecv, rcSentOK, lnConsumed, gcSent, wg.done, ds.Mutex.held
 //@   joins w [C12]: wg
+//@   ensures unlocked [C12]: !ds.Mutex.held || ds.Mutex.held == old(ds.Mutex.held)
 //@ loop gtree.defaultSpreaderPipeline.worker#1
+//@   invariant unlocked [C12]: !ds.Mutex.held || ds.Mutex.held == old(ds.Mutex.held)
 //@   invariant reported [C14]: wfail && !old(wfail) ==> errSent
 //@   invariant text [C01]: len(old(gcRecv)) <= len(gcRecv) && (wfail == old(wfail) && !errSent ==> out[ds.defaultSpreaderSimple.w] == old(out[ds.defaultSpreaderSimple.w]) ++ specRawRange(gcRecv, len(old(gcRecv)), len(gcRecv)))
 
@@ -262,7 +264,7 @@ func lemmaRawRangePrefix(roots []*Node, r *Node, k int, i int) {
 //@   requires validating [C09,C07]: g != nil ==> g.enabledValidation
 //@   carries errc: errChan
 //@   carries result0: errChan
-//@   modifies out, wfail, counter.n, spText, dryRoots, errSent, ctxDoneSeen, gcRecv, rcRecv, rcSentOK, lnConsumed, gcSent
+//@   modifies out, wfail, counter.n, spText, dryRoots, errSent, ctxDoneSeen, gcRecv, rcRecv, rcSentOK, lnConsumed, gcSent, counter.mu.wheld, counter.mu.rheld
 //@   after make: spText := ""
 // (functional clause, per goroutine: what this goroutine hands to the writer is, root by root, the dry-run report
 // specDryRoot of the roots it received - counters reset per root; spText accumulates what is owed, as on the simple route)
@@ -272,7 +274,7 @@ func lemmaRawRangePrefix(roots []*Node, r *Node, k int, i int) {
 //@   closes errs [C12]: errc
 //@   requires nn: cs != nil && cs.colorizeSpreaderSimple != nil && colorizeOK(cs.colorizeSpreaderSimple) && ctx != nil
 //@   requires start: spText == ""
-//@   modifies out, wfail, counter.n, spText, dryRoots, errSent, ctxDoneSeen, gcRecv, rcRecv, rcSentOK, lnConsumed, gcSent
+//@   modifies out, wfail, counter.n, spText, dryRoots, errSent, ctxDoneSeen, gcRecv, rcRecv, rcSentOK, lnConsumed, gcSent, counter.mu.wheld, counter.mu.rheld
 //@   after spreadBranch: spText := spText ++ specDryRoot(cs.colorizeSpreaderSimple.fileColor, cs.colorizeSpreaderSimple.dirColor, cs.colorizeSpreaderSimple.fileConsiderer.extensions, arg0)
 //@   after spreadBranch: dryRoots := dryRoots ++ seqof(arg0)
 //@ loop gtree.colorizeSpreaderPipeline.spread#1#1
